@@ -13,6 +13,8 @@ BAD = b"def broken(:\n    pass\n"
 VERIFY = b"import requests\n\nrequests.get('https://u', verify=False)\n"
 VERIFY2 = b"import requests\n\nrequests.get('https://a', verify=False)\nrequests.post('https://b', verify=False)\n"
 RANDOM = b"import random\n\nvalue = random.random()\n"
+# same kind of node at the same position as VERIFY's call, but NOT reported (verify=check), next to a reported one
+MIXED = b"import requests\n\nrequests.get('https://u', verify=check)\nrequests.post('https://b', verify=False)\n"
 
 
 def _sonar(files):
@@ -30,7 +32,7 @@ DRIVERS = {
     },
     "semgrep-detected": {
         "codemod": "pixee:python/requests-verify",
-        "files": {"a/mod.py": VERIFY, "b/mod.py": VERIFY, "c/two.py": VERIFY2},
+        "files": {"a/mod.py": VERIFY, "b/mod.py": MIXED, "c/two.py": VERIFY2},
     },
     "sonar": {
         "codemod": "sonar:python/secure-random",
@@ -349,3 +351,24 @@ def root_job(arg):
     seq, hseq, _ = run_once(driver, [], gran, workers=1)
     labels = sorted({str(p.label[0]) if isinstance(p.label, tuple) else str(p.label) for p in s.points})
     return {"hash": h, "alts": alts, "points": len(s.points), "seq_hash": hseq, "seams": _SEAMS[0] if _SEAMS else {}, "labels": labels, "tasks": len(s.tasks)}
+
+
+def detail_job(arg):
+    driver, choices, gran = arg
+    _, h, detail = run_once(driver, choices, gran)
+    return h, detail
+
+
+def explore_cached(driver, gran, bound):
+    """explore_parallel + the observation (tree, results) of every distinct outcome, shared between C11, C15, C18 and C19."""
+    from .. import cache
+
+    def compute():
+        r = explore_parallel(driver, gran, bound)
+        items = [(driver, ch, gran) for ch in r["outcomes"].values()]
+        r["details"] = {h: d for h, d in drive.pmap("cmverif.checks.c11a:detail_job", items)}
+        r["files"] = dict(DRIVERS[driver]["files"])
+        return r
+
+    val, hit = cache.cached(f"sched-{driver}-{gran}-{bound}", compute)
+    return val
